@@ -3,6 +3,7 @@ package main
 import (
 	"bytes"
 	"fmt"
+	"os"
 	"reflect"
 	"sort"
 	"strings"
@@ -39,6 +40,8 @@ type dmaSub struct {
 	data []byte
 	done bool
 	cp   *dmaCopy
+
+	sendSeq int
 }
 
 type dmaCopy struct {
@@ -50,6 +53,7 @@ type dmaCopy struct {
 	req      sim.Msg
 	recvSeq  int
 	rspSeq   int
+	firstSub int // port-event index of the first memory sub-request (-1: none)
 	subs     []*dmaSub
 	answered int
 	linked   bool
@@ -80,6 +84,8 @@ type copyMon struct {
 	// counters (drained by the child at scenario end)
 	cnt map[string]int64
 
+	flushDone map[sim.Msg]int // FlushReq -> port-event index at which the CP sent its answer
+
 	portFrom, taskFrom int // analysed prefix
 }
 
@@ -94,7 +100,7 @@ func gpuOfName(name string) int {
 }
 
 func attachCopyMon(p *plat.Platform, viol violFn) *copyMon {
-	m := &copyMon{dmas: map[int]*dmaMon{}, viol: viol, cnt: map[string]int64{}}
+	m := &copyMon{dmas: map[int]*dmaMon{}, viol: viol, cnt: map[string]int64{}, flushDone: map[sim.Msg]int{}}
 	m.log = simkit.NewLog(p.Engine, 1*sim.GHz)
 	m.log.OnEvent = m.onPort
 	m.log.Attach(p.Driver.GetPortByName("GPU"), "drv")
@@ -107,6 +113,11 @@ func attachCopyMon(p *plat.Platform, viol violFn) *copyMon {
 		m.dmas[g] = &dmaMon{gpu: g, open: map[string]*dmaCopy{}, closed: map[string]*dmaCopy{}, subs: map[string]*dmaSub{}}
 		m.log.Attach(d.ToCP, fmt.Sprintf("dmaCP/%d", g))
 		m.log.Attach(d.ToMem, fmt.Sprintf("dmaMem/%d", g))
+	}
+	for _, c := range p.Sim.Components() {
+		if cpc, ok := c.(*cp.CommandProcessor); ok {
+			m.log.Attach(cpc.ToDriver, fmt.Sprintf("cpDrv/%d", gpuOfName(cpc.Name())))
+		}
 	}
 	tracing.CollectTrace(p.Driver, &drvTracer{m: m})
 	return m
@@ -135,6 +146,16 @@ func (m *copyMon) onPort(e simkit.Event) {
 	defer m.mu.Unlock()
 	m.nPort = e.Seq + 1
 	if !strings.HasPrefix(e.Port, "dma") {
+		if strings.HasPrefix(e.Port, "cpDrv/") && e.Kind == simkit.KSend {
+			if g, ok := e.Msg.(*sim.GeneralRsp); ok {
+				if f, ok := g.OriginalReq.(*protocol.FlushReq); ok {
+					if _, dup := m.flushDone[f]; dup {
+						m.viol("C11|cp|flush-answered-twice", "a command processor answered one flush request twice", map[string]any{"port": e.Port})
+					}
+					m.flushDone[f] = e.Seq
+				}
+			}
+		}
 		if e.Port == "drv" && e.Kind == simkit.KSend {
 			if _, ok := e.Msg.(*protocol.FlushReq); ok {
 				m.count("flush_requests_sent", 1)
@@ -223,7 +244,10 @@ func (m *copyMon) onPort(e simkit.Event) {
 				m.viol("C11|dma|write-data-not-source-slice", fmt.Sprintf("DMA write of [0x%x,+%d) does not carry bytes [%d,%d) of the copy's source", a, n, off, off+n), wit(map[string]any{"addr": a, "len": n}))
 			}
 		}
-		s := &dmaSub{id: e.Msg.Meta().ID, addr: a, n: n, cp: owner}
+		s := &dmaSub{id: e.Msg.Meta().ID, addr: a, n: n, cp: owner, sendSeq: e.Seq}
+		if len(owner.subs) == 0 {
+			owner.firstSub = e.Seq
+		}
 		owner.subs = append(owner.subs, s)
 		d.subs[s.id] = s
 		m.count("dma_sub_requests", 1)
@@ -390,10 +414,11 @@ func (m *copyMon) analyse(issued []*issuedCopy, scen string) {
 				}
 				c := cmds[t.ID]
 				if c == nil {
-					c = &drvCmd{id: t.ID, what: t.What}
+					c = &drvCmd{id: t.ID}
 					cmds[t.ID] = c
 					order = append(order, c)
 				}
+				c.what = t.What
 				c.starts++
 			case "req_out":
 				msg, _ := t.Detail.(sim.Msg)
@@ -474,6 +499,9 @@ func (m *copyMon) analyse(issued []*issuedCopy, scen string) {
 			continue
 		}
 		m.count("driver_copy_commands_checked", 1)
+		if debugTrace {
+			fmt.Printf("CMD %s end@%d %v\n", c.what, c.endSeq, describeReqs(c.reqs))
+		}
 		lastIsFlush := false
 		lastRsp := -1
 		var data []*drvReq
@@ -509,24 +537,26 @@ func (m *copyMon) analyse(issued []*issuedCopy, scen string) {
 		}
 		if hasFlush {
 			m.count("copies_with_flush", 1)
-			// observation only (the verdict is taken on values): did any data
-			// sub-request reach memory before the same GPU's flush was answered?
+			// observation only (the verdict is taken on values): did the first
+			// memory access of a data request happen before the flush of the
+			// same GPU was finished (answer leaving the command processor)?
 			for _, r := range data {
-				var fl *drvReq
-				for _, f := range c.reqs {
-					if f.kind == "flush" && f.gpu == r.gpu {
-						fl = f
-					}
-				}
-				if fl == nil || len(fl.rsps) != 1 {
+				if len(r.sent) != 1 || len(r.rsps) != 1 {
 					continue
 				}
-				if dc := m.findDMACopy(r, false); dc != nil && len(dc.subs) > 0 {
-					first := dc.recvSeq
-					if first < fl.rsps[0] {
-						// request was at the DMA engine before the flush answer reached the driver;
-						// compare with the flush answer leaving the CP is not observable here
-						m.count("copies_at_dma_before_flush_answer_reached_driver", 1)
+				for _, f := range c.reqs {
+					if f.kind != "flush" || f.gpu != r.gpu {
+						continue
+					}
+					fd, ok := m.flushDone[f.msg]
+					dc := m.findDMACopy(r, false)
+					if !ok || dc == nil || len(dc.subs) == 0 {
+						continue
+					}
+					if dc.firstSub < fd {
+						m.count("data_access_before_same_gpu_flush_finished", 1)
+					} else {
+						m.count("data_access_after_same_gpu_flush_finished", 1)
 					}
 				}
 			}
@@ -598,6 +628,8 @@ func (m *copyMon) findDMACopy(r *drvReq, take bool) *dmaCopy {
 	}
 	return nil
 }
+
+var debugTrace = os.Getenv("C11_DEBUG") != ""
 
 func isCopyMsg(m sim.Msg) bool {
 	switch m.(type) {
